@@ -60,7 +60,10 @@ def tasks(tier):
     return ['wrap', 'helpers', 'periodic', 'mirror', 'update', 'construct',
             'canary',
             'dep:C06:extract', 'dep:C06:append', 'dep:C06:tagged',
-            'dep:C06:remove']
+            'dep:C06:remove',
+            # the ghost buffer picks up properties added later through
+            # ensure_properties / empty_clone (type, default, stride kept)
+            'dep:C06:misc']
 
 
 def carr(name, length=None, elem='real'):
